@@ -65,6 +65,18 @@ def main():
     ctx = prepare.prepare(pid, args.tier, seed)
     plan = props.REGISTRY[pid](ctx)
     harnesses = [h for h in plan.harnesses if args.tier in h.tiers]
+    if args.tier == "quick":
+        # measured wall times (lib/slow_harnesses.json, from complete thorough runs): a harness that
+        # needed more than QUICK_CAP seconds is never part of the quick tier, whatever the seed picks
+        try:
+            slow = json.load(open(os.path.join(HERE, "lib", "slow_harnesses.json")))
+        except Exception:
+            slow = {}
+        cap = slow.get("_quick_cap_s", 240)
+        dropped = [h.name for h in harnesses if slow.get(h.name, 0) > cap]
+        if dropped:
+            print(f"[{pid}] {len(dropped)} seed-chosen harness(es) left to the thorough tier (measured > {cap}s): " + ", ".join(d.split("::")[-1] for d in dropped[:6]))
+            harnesses = [h for h in harnesses if h.name not in dropped]
     if args.only:
         harnesses = [h for h in harnesses if args.only in h.name]
     log_dir = os.path.join(runner.BUILD, "logs", pid)
